@@ -10,8 +10,10 @@
      consistent bucket and the local backend produce the observations of the abstract store:
      contents, existence of exact keys, table-relative listings confined to the named directory,
      sizes, not-found errors.  For S3: under EVERY configured prefix (as passed to the constructor) and
-     in the presence of ANY other objects in the bucket outside the table's root.  For local: when no
-     key is a directory of another key (a file system cannot hold both "a" and "a/b" as files).
+     in the presence of ANY other objects in the bucket outside the table's root.  For local: when no WRITTEN
+     key is a directory of another written key (a file system cannot hold both "a" and "a/b" as files); the keys
+     that are only probed (exists / read / size / mtime / delete / open) are unconstrained -- a directory of a
+     written key, a path below one: both backends answer for EXACT keys only (exists false, not-found, delete no-op).
      open_seekable after ANY history answers from the key's CURRENT content (C20_open_after_history), and every
      ranged GET any open issues names an object that exists, within its size (C20_open_ranges_in_objects);
      open_seekable's wiring (which key the reader reads, whose size it is given) is Gen/GenRange.v.
@@ -21,10 +23,23 @@
      0 <= first <= last < size, at most one request per read.
    Retry (Model/Retry.v; budget and permanent codes from Gen/GenS3.v): transients within the budget are
      masked, a permanent / non-retryable error surfaces at once, max+1 transients raise after exactly
-     max+1 attempts, a returned value or raised error is always the operation's own last outcome. *)
+     max+1 attempts, a returned value or raised error is always the operation's own last outcome; every error on an
+     INDEPENDENT list of definitive S3 answers (access / credentials / bucket) surfaces with the attempt that met it.
+   Faults inside histories (Model/BackendFault.v: the retry loop composed with every backend method as the source
+     wraps it; a fault plan per operation, one entry per request, injected BEFORE or AFTER the request took effect):
+     C20_s3_faulty_masks_partial -- for every history, prefix, page size and foreign objects, transient faults (at most
+     max_retries per operation, at any request: the PUT that landed and was answered with an error, any page of a
+     listing, get_size's HEAD or any ranged GET of an open_seekable reader) change no result, PROVIDED the request that
+     would be the operation's last attempt (index max_retries) is answered and CAS writes are fault-free.
+     C20_s3_faulty_masks_full (the statement without the first proviso) is FALSE of the code as it is --
+     C20_s3_faulty_masks_refuted: a not-found answer is retried like a transient error (C20_not_found_retried;
+     C20_not_found_immediate_refuted) and uses up the budget, so ONE transient error on the (max_retries+1)-th request
+     of a read of a missing key surfaces instead of FileNotFoundError.  C20_cas_put_fault_surfaces: write_file_cas is
+     not under the retry, an error on its conditional PUT surfaces with that request (and the object is written when
+     the error came after the effect). *)
 From Coq Require Import List Bool Ascii String Arith ZArith QArith Lia.
-Require Import DS.Model.Str DS.Gen.GenS3 DS.Gen.GenRange DS.Model.Backend DS.Model.BackendTrace DS.Model.Range DS.Model.Retry DS.Model.Paged.
-Require Import DS.Proofs.BackendProofs DS.Proofs.RangeProofs DS.Proofs.RetryProofs DS.Proofs.PagedProofs.
+Require Import DS.Model.Str DS.Gen.GenS3 DS.Gen.GenRange DS.Model.Backend DS.Model.BackendTrace DS.Model.Range DS.Model.Retry DS.Model.Paged DS.Model.BackendFault.
+Require Import DS.Proofs.BackendProofs DS.Proofs.RangeProofs DS.Proofs.RetryProofs DS.Proofs.PagedProofs DS.Proofs.BackendFaultProofs.
 Import ListNotations.
 Open Scope nat_scope.
 
@@ -35,14 +50,15 @@ Theorem C20_refine_s3 : forall (raw_prefix : str) (F : bucket) (ops : list (op k
 Proof. exact refine_s3. Qed.
 Print Assumptions C20_refine_s3.
 
+(* only the WRITTEN keys are constrained; a probe may name a directory of a written key or a path below one *)
 Theorem C20_refine_local : forall (ops : list (op key)),
-  Forall wf_op ops -> prefix_free (op_keys ops) ->
+  Forall wf_op ops -> prefix_free (written_keys ops) ->
   run_local ops = run_spec ops.
 Proof. exact refine_local. Qed.
 Print Assumptions C20_refine_local.
 
 Theorem C20_backends_agree : forall (raw_prefix : str) (F : bucket) (ops : list (op key)),
-  foreign_ok (gen_init_prefix raw_prefix) F -> Forall wf_op ops -> prefix_free (op_keys ops) ->
+  foreign_ok (gen_init_prefix raw_prefix) F -> Forall wf_op ops -> prefix_free (written_keys ops) ->
   run_s3 raw_prefix F ops = run_local ops.
 Proof. exact backends_agree. Qed.
 Print Assumptions C20_backends_agree.
@@ -50,7 +66,7 @@ Print Assumptions C20_backends_agree.
 (* the table-absolute spelling of a key ("/data/x", as manifests spell data files) names the same key in
    both backends, for every operation and any number of leading slashes *)
 Theorem C20_leading_slash_same : forall (pfx : str) (b : bucket) (s : lstate) (n : nat) (o : op key),
-  Forall wf_seg (op_segs o) ->
+  wf_op o ->
   s3_step pfx b (map_op (abs_join n) o) = s3_step pfx b (map_op join o)
   /\ local_step_str s (map_op (abs_join n) o) = local_step_str s (map_op join o).
 Proof. exact leading_slash_same. Qed.
@@ -153,6 +169,54 @@ Theorem C20_s3_retry_exhaust : forall (V : Type) (es : list exn) (e : exn) (rest
 Proof. exact @s3_retry_exhaust. Qed.
 Print Assumptions C20_s3_retry_exhaust.
 
+(* an error on the independent list of definitive S3 answers (Model/Retry.v definitive_codes: not authorised, wrong
+   credentials, no such bucket) surfaces with the attempt that met it, whatever transient errors preceded it *)
+Theorem C20_s3_retry_definitive : forall (V : Type) (es : list exn) (e : exn) (rest : list (V + exn)),
+  Forall transient_exn es -> List.length es <= gen_max_retries -> definitive e = true ->
+  with_s3_retry (map inr es ++ inr e :: rest) = (Raised e, S (List.length es)).
+Proof. exact @s3_retry_definitive. Qed.
+Print Assumptions C20_s3_retry_definitive.
+
+(* ------------------------------------------------------------------ faults inside histories *)
+Theorem C20_s3_faulty_masks_partial : forall (page : nat) (raw_prefix : str) (F : bucket) (ops : list (op key)) (plans : list fplan),
+  foreign_ok (gen_init_prefix raw_prefix) F -> Forall wf_op ops -> plans_ok gen_max_retries ops plans ->
+  run_s3_f page raw_prefix F ops plans = map inl (run_spec ops).
+Proof. exact s3_faulty_masks_partial. Qed.
+Print Assumptions C20_s3_faulty_masks_partial.
+
+(* the property's statement -- transient faults within the budget, wherever they land -- is false of the code as it is *)
+Definition C20_s3_faulty_masks_full : Prop :=
+  forall (page : nat) (raw_prefix : str) (F : bucket) (ops : list (op key)) (plans : list fplan),
+  foreign_ok (gen_init_prefix raw_prefix) F -> Forall wf_op ops -> plans_within gen_max_retries ops plans ->
+  run_s3_f page raw_prefix F ops plans = map inl (run_spec ops).
+
+Theorem C20_s3_faulty_masks_refuted : ~ C20_s3_faulty_masks_full.
+Proof. exact s3_faulty_masks_refuted. Qed.
+Print Assumptions C20_s3_faulty_masks_refuted.
+
+Theorem C20_not_found_retried : forall (page : nat) (pfx : str) (b : bucket) (p : str),
+  has str_eqb (gen_get_s3_key pfx p) b = false ->
+  s3_trace page pfx b (Read p) = repeat (RGet (gen_get_s3_key pfx p)) (S gen_max_retries)
+  /\ s3_trace page pfx b (Size p) = repeat (RHead (gen_get_s3_key pfx p)) (S gen_max_retries).
+Proof. exact not_found_retried. Qed.
+Print Assumptions C20_not_found_retried.
+
+Definition C20_not_found_immediate_full : Prop :=
+  forall (page : nat) (pfx : str) (b : bucket) (p : str),
+  has str_eqb (gen_get_s3_key pfx p) b = false -> s3_trace page pfx b (Read p) = [RGet (gen_get_s3_key pfx p)].
+
+Theorem C20_not_found_immediate_refuted : ~ C20_not_found_immediate_full.
+Proof. exact not_found_immediate_refuted. Qed.
+Print Assumptions C20_not_found_immediate_refuted.
+
+Theorem C20_cas_put_fault_surfaces : forall (budget page : nat) (pfx : str) (b : bucket) (p : str) (cur v : bytes) (w : fwhen) (e : exn) (rest : fplan),
+  lookup str_eqb (gen_get_s3_key pfx p) b = Some cur ->
+  (match e with ClientError c => member c gen_cas_conflict_codes = false | _ => True end) ->
+  s3_step_f budget page pfx b (WriteCas p v) (None :: Some (w, e) :: rest)
+  = (match w with FBefore => b | FAfter => s3_put_object b (gen_get_s3_key pfx p) v end, rest, inr e).
+Proof. exact cas_put_fault_surfaces. Qed.
+Print Assumptions C20_cas_put_fault_surfaces.
+
 (* ------------------------------------------------------------------ faults inside a paginated listing
    list_files = with_s3_retry around the WHOLE listing (fresh result list and paginator per attempt).
    For EVERY page structure, EVERY fault plan over the requests of all attempts (a fault may hit the
@@ -185,12 +249,15 @@ Definition ex_ops : list (op key) :=
     Size (k "data2/x"); Delete (k "data2/x"); Read (k "data2/x"); ListDir (k ""); Read (k "data/x");
     Open (k "data/x") [Seek (-2) SeekEnd; ReadInto 5; Seek (-9) SeekCur; Tell];
     Open (k "data2/x") [ReadAll];                                  (* deleted above *)
-    Write (k "data/x") (lit "z"); Open (k "data/x") [Seek 0 SeekEnd; Seek 0 SeekSet; ReadAll]; Stream (k "database") ].
+    Write (k "data/x") (lit "z"); Open (k "data/x") [Seek 0 SeekEnd; Seek 0 SeekSet; ReadAll]; Stream (k "database");
+    (* probes of names that are not keys: a directory of written keys, a path below a written key *)
+    Exists (k "data"); Size (k "data"); Delete (k "data"); Mtime (k "metadata"); Read (k "data"); Open (k "data") [ReadAll];
+    Read (k "database/z"); Exists (k "database/z"); Exists (k "data/x") ].
 
 Example C20_nonvacuous :
   foreign_ok (gen_init_prefix (lit "wh/t1/")) ex_F
   /\ Forall wf_op ex_ops
-  /\ prefix_free (op_keys ex_ops)
+  /\ prefix_free (written_keys ex_ops) /\ ~ prefix_free (op_keys ex_ops)
   /\ run_s3 (lit "wh/t1/") ex_F ex_ops =
      [ OUnit; OUnit; OUnit; OUnit; OUnit;
        OList [lit "data/x"]; OList [lit "metadata/v1.metadata.json"]; OList []; OBool true; OBool false;
@@ -198,14 +265,48 @@ Example C20_nonvacuous :
        OList [lit "data/x"; lit "database"; lit "metadata/v1.metadata.json"; lit "metadata.version-hint.text"];
        OBytes (lit "abc");
        OOpened [RPos 1; RData (lit "bc"); RErr; RPos 3] 3; OErr NotFound;
-       OUnit; OOpened [RPos 1; RPos 0; RData (lit "z")] 1; OBytes (lit "f") ]
+       OUnit; OOpened [RPos 1; RPos 0; RData (lit "z")] 1; OBytes (lit "f");
+       OBool false; OErr NotFound; OUnit; OErr NotFound; OErr NotFound; OErr NotFound; OErr NotFound; OBool false; OBool true ]
   /\ run_local ex_ops = run_s3 (lit "wh/t1/") ex_F ex_ops.
 Proof.
   split; [apply foreign_okb_sound; vm_compute; reflexivity|].
   split; [apply wf_opsb_sound; vm_compute; reflexivity|].
   split; [apply prefix_freeb_sound; vm_compute; reflexivity|].
+  split; [intro H; specialize (H (k "data") (k "data/x")); vm_compute in H; discriminate H; auto 30|].
   split; vm_compute; reflexivity.
 Qed.
+
+(* faults: a history whose plans satisfy the theorem's hypothesis -- a PUT that landed and was answered with an error,
+   then failed once more before the request; transient errors on a read, on exists, on the second page of a listing,
+   on get_size's HEAD and on a ranged GET of a reader, on a delete after its effect; a read of a missing key with two
+   faults among its first attempts -- and the run gives the contract's results *)
+Definition exf_ops : list (op key) :=
+  [ Write (k "data/x") (lit "abc"); Write (k "data/y") (lit "de"); Write (k "data/z") (lit "f");
+    Read (k "data/x"); Exists (k "data/y"); ListDir (k "data");
+    Open (k "data/x") [Seek (-2) SeekEnd; ReadInto 5; Tell]; Delete (k "data/y"); Read (k "data/y"); Size (k "data/x") ].
+Definition slow : exn := ClientError (lit "SlowDown").
+Definition exf_plans : list fplan :=
+  [ [Some (FAfter, slow); Some (FBefore, OSErr)]; []; [Some (FAfter, BotoCoreErr)];
+    [Some (FBefore, slow); Some (FAfter, ClientError (lit "InternalError"))]; [Some (FAfter, slow)]; [None; Some (FBefore, slow); None; Some (FAfter, OSErr)];
+    [Some (FBefore, slow); None; Some (FAfter, slow); Some (FBefore, slow)]; [Some (FAfter, slow)];
+    [None; Some (FBefore, slow); None; Some (FAfter, slow)]; [] ].
+
+Example C20_nonvacuous_faults :
+  plans_ok gen_max_retries exf_ops exf_plans
+  /\ run_s3_f 2 (lit "wh/t1") ex_F exf_ops exf_plans =
+     map inl [ OUnit; OUnit; OUnit; OBytes (lit "abc"); OBool true; OList [lit "data/x"; lit "data/y"; lit "data/z"];
+               OOpened [RPos 1; RData (lit "bc"); RPos 3] 3; OUnit; OErr NotFound; OSize 3%Z ]
+  /\ run_spec exf_ops = [ OUnit; OUnit; OUnit; OBytes (lit "abc"); OBool true; OList [lit "data/x"; lit "data/y"; lit "data/z"];
+                          OOpened [RPos 1; RData (lit "bc"); RPos 3] 3; OUnit; OErr NotFound; OSize 3%Z ].
+Proof. split; [apply plans_okb_sound; vm_compute; reflexivity|]. split; vm_compute; reflexivity. Qed.
+
+(* the refutation's witness, spelled out: 5 answered requests, then one transient error *)
+Example C20_nonvacuous_refutation :
+  plans_within gen_max_retries [Read (k "x")] [[None; None; None; None; None; Some (FBefore, slow)]]
+  /\ run_s3_f 2 [] [] [Read (k "x")] [[None; None; None; None; None; Some (FBefore, slow)]] = [inr slow]
+  /\ run_spec [Read (k "x")] = [OErr NotFound]
+  /\ definitive (ClientError (lit "AccessDenied")) = true /\ definitive slow = false.
+Proof. split; [apply plans_withinb_sound; vm_compute; reflexivity|]. repeat split; vm_compute; reflexivity. Qed.
 
 (* the requests of write -> open_seekable+program -> delete -> open_seekable under prefix "wh/t1": one HEAD and one
    ranged GET (bytes 1-2 of the 3-byte object) for the first open; for the open after the delete only get_size's
@@ -243,3 +344,12 @@ Example C20_nonvacuous_paged :
 Proof.
   split; [intros f [H|[H|[H|[H|[H|[]]]]]]; congruence|]. split; vm_compute; [lia|reflexivity].
 Qed.
+
+(* write_file_cas on a key that holds "old", the tag read (one GET), then the conditional PUT answered with a transient
+   error AFTER it landed: the error surfaces at once (no second PUT) and the object holds the new content *)
+Example C20_nonvacuous_cas :
+  s3_step_f gen_max_retries 2 (lit "p") [(lit "p/k", lit "old")] (WriteCas (lit "k") (lit "new")) [None; Some (FAfter, slow)]
+  = ([(lit "p/k", lit "new")], [], inr slow)
+  /\ s3_step_f gen_max_retries 2 (lit "p") [(lit "p/k", lit "old")] (WriteCas (lit "k") (lit "new")) [None; Some (FBefore, slow)]
+  = ([(lit "p/k", lit "old")], [], inr slow).
+Proof. split; vm_compute; reflexivity. Qed.
